@@ -161,6 +161,34 @@ def differential(tier='quick', seed=0):
                 fails.append({'call': f'byteswap({fmt!r}) twice on {data!r}', 'python': "FAILS = True"})
         except ValueError:
             pass
+    # Array.equals(array.array): true exactly when the items are equal -- byte-identical data under another item kind is not equal
+    import array as _array
+    same_width = {1: 'bB', 2: 'hH', 4: 'iIf', 8: 'qQd'}          # ('l'/'L' differ between struct's standard and array's native size)
+    for _ in range(300):
+        evals += 1
+        w = rng.choice([1, 2, 4, 8])
+        tc = rng.choice(same_width[w])
+        n_items = rng.randint(0, 4)
+        raw = bytes(rng.randrange(256) for _ in range(w * n_items))
+        if tc in 'fd':
+            raw = struct.pack('=' + tc * n_items, *[rng.choice([0.0, 1.0, -2.5, 1e10]) for _ in range(n_items)])
+        src = _array.array(tc, raw)
+        for tc2 in same_width[w]:
+            other = _array.array(tc2, raw)
+            try:
+                a = Array('=' + tc, src.tolist())
+                got = a.equals(other)
+                want = a.tolist() == other.tolist()          # same width by construction: equal iff the *items* are equal
+                ok = bool(got) == bool(want)
+            except Exception:
+                ok = False
+                got = 'exception'
+            if not ok:
+                fails.append({'call': f"Array('={tc}', {src.tolist()!r}).equals(array.array('{tc2}', <same bytes>))", 'observed': got, 'expected': want,
+                              'python': "import bitstring, array\n"
+                                        f"raw = bytes.fromhex('{raw.hex()}')\na = bitstring.Array('={tc}', array.array('{tc}', raw).tolist())\n"
+                                        f"FAILS = bool(a.equals(array.array('{tc2}', raw))) != {bool(want)}\n"})
+                break
     # Array.byteswap converts between the two encodings of every whole-byte item, twice is the identity, other widths are refused
     for _ in range(200):
         evals += 1
